@@ -185,7 +185,16 @@ def _execute(recipe):
 def main():
     with open(sys.argv[1], encoding='utf-8') as f:
         recipe = json.load(f)
-    obs = execute(recipe)
+    if 'batch' in recipe:
+        # several independent recipes in one interpreter; progress is
+        # flushed per recipe so that a hang can be attributed
+        obs = []
+        for i, r in enumerate(recipe['batch']):
+            sys.stdout.write(f"@@START@@{i}\n")
+            sys.stdout.flush()
+            obs.append(execute(r))
+    else:
+        obs = execute(recipe)
     sys.stdout.write("@@OBS@@" + json.dumps(obs) + "\n")
     sys.stdout.flush()
     # make sure nothing lingers
